@@ -258,6 +258,29 @@ def _fit(case, order, est=None):
         rec = est.inverse_transform(S)
         out["rec"] = [np.asarray(r.values).tolist() for r in rec.data]
         out["rec_t"] = [np.asarray(r.argvals["input_dim_0"]).tolist() for r in rec.data]
+    # option forwarding: P-spline coefficient blocks recomputed with PSplines called directly with the user's options
+    from FDApy.preprocessing.smoothing.psplines import PSplines
+
+    chk = []
+    offs = np.concatenate([[0], np.cumsum(out["sizes"])])
+    for q, e in enumerate(exps_before):
+        if e.get("method") != "PSplines":
+            chk.append(None)
+            continue
+        d = est._training_data.data[q]
+        t = d.argvals["input_dim_0"]
+        dev = 0.0
+        try:
+            for i in range(d.n_obs):
+                ps = PSplines(n_segments=e["n_segments"], degree=e["degree"])
+                ps.fit(y=d.values[i], x=[t], penalty=e.get("penalty", [1]))
+                got = xi[i, int(offs[q]):int(offs[q + 1])]
+                want = np.asarray(ps.beta_hat).flatten()
+                dev = max(dev, float(np.abs(got - want).max()) / max(float(np.abs(want).max()), 1e-300)) if got.shape == want.shape else float("inf")
+        except Exception as ex:  # noqa: BLE001
+            dev = "error:" + type(ex).__name__
+        chk.append(dev)
+    out["ps_option_dev"] = chk
     out["mean"] = [np.asarray(m.values)[0].tolist() for m in est.mean.data]
     out["weights"] = [float(w) for w in np.asarray(est.weights)]
     out["sqrtw"] = [float(np.sqrt(w)) for w in np.asarray(est.weights)]
@@ -287,6 +310,17 @@ def run_impl(case):
         keys = ("eigenvalues", "coef", "pace", "rec", "xi")
         out["refit_same"] = bool("error" not in o2 and all(_same(fits[0][k], o2[k]) for k in keys))
         out["refit_sizes"] = o2.get("sizes")
+    # history with OTHER data first: fit(B), use it (inverse_transform / transform fill any cache), then fit(A) on the
+    # same object: must equal the fresh fit of A
+    if "error" not in fits[0]:
+        other = dict(case)
+        other["comps"] = [dict(t=c["t"], X=[[rs(2 * F(x) + Fraction(j, 8)) for j, x in enumerate(r[::-1])] for r in c["X"][::-1]])
+                          for c in case["comps"]]
+        oB, estB = _fit(other, tuple(range(P)))
+        if "error" not in oB:
+            o3, _ = _fit(case, tuple(range(P)), est=estB)
+            keys = ("eigenvalues", "coef", "psi", "pace", "rec", "mean", "xi")
+            out["refit_other"] = bool("error" not in o3 and all(_same(fits[0][k], o3[k]) for k in keys))
     # unknown options are rejected
     try:
         est0.transform(method="nope")
@@ -644,6 +678,8 @@ def oracle(case, impl):
         bad("inputs_unchanged", "fit changed the user's univariate_expansions dictionaries", causes=["expansions_popped"])
     if not impl.get("refit_same", True):
         bad("refit_same", f"second fit on the same estimator differs from the first (univariate sizes now {impl.get('refit_sizes')}, before {f0['sizes']})", causes=["expansions_popped"] if not f0["exps_unchanged"] else [])
+    if not impl.get("refit_other", True):
+        bad("refit_same", "a fit on an estimator that was fitted on other data before (and used) differs from a fresh fit", causes=["stale_state"])
     P = len(case["comps"])
     for f in fits:
         if "error" in f:
@@ -651,6 +687,14 @@ def oracle(case, impl):
         causes = _causes(f)
         tag = f"order {f['order']}"
         K = len(f["nu"])
+        # (−1) the user's expansion options reach the univariate decompositions
+        for q, p in enumerate(f["order"]):
+            e = case["exps"][p]
+            if f["sizes"][q] != _size(e):
+                bad("expansion_options", f"{tag}: component {p} was expanded with {f['sizes'][q]} functions, the options ask for {_size(e)}", causes=causes)
+            dv = f.get("ps_option_dev", [None] * P)[q]
+            if dv is not None and (isinstance(dv, str) or dv > 1e-8):
+                bad("expansion_options", f"{tag}: P-spline coefficients of component {p} differ from PSplines(n_segments, degree).fit(penalty) with the user's options (rel. dev {dv})", causes=causes)
         # (0) the matrix decomposed is blockdiag(basis Gram matrices) · cov(univariate scores)
         xi = np.asarray(f["xi"], dtype=float)
         Mtot = xi.shape[1]
